@@ -12,18 +12,18 @@ Import ListNotations.
 (* property keys: since the repair of C01-bare-key every serde / parameter name printed in a key position goes
    through the ts_key filter. For EVERY byte string the printed key is an identifier name or a well-formed
    double-quoted literal, and the member access is .name or a bracket access with a well-formed literal *)
-Theorem C01_key_chunk_ok : forall k, kf_key_other_number k = false -> holes_ok [key_chunk k] = true.
+Theorem C01_key_chunk_ok : forall k, holes_ok [key_chunk k] = true.
 Proof. exact key_chunk_ok. Qed.
-Theorem C01_member_access_ok : forall k, kf_key_other_number k = false -> holes_ok (member_access k) = true.
+Theorem C01_member_access_ok : forall k, holes_ok (member_access k) = true.
 Proof. exact member_access_ok. Qed.
-(* the class: ts_key decides with char::is_alphanumeric, which accepts Unicode category No (superscripts,
-   subscripts, fractions, circled numbers); such a name is printed bare but is not an ECMAScript identifier name.
-   ASCII names are never in the class *)
-Theorem C01_key_class_ascii : forall k, forallb ascii_byte k = true -> kf_key_other_number k = false.
-Proof. exact key_class_ascii. Qed.
-Theorem C01_key_chunk_refuted : kf_key_other_number m_squared = true /\ key_chunk m_squared = Hole HKey m_squared /\
-  hole_ok HKey m_squared = false /\ bad_class HKey m_squared = Some "C01-key-other-number"%string.
-Proof. exact key_chunk_refuted. Qed.
+(* the reason: whatever the repaired filter prints bare is an ECMAScript identifier name (first character alphabetic,
+   underscore or dollar; later ones alphabetic, ASCII digit, underscore or dollar) *)
+Theorem C01_rust_ident_is_ident : forall k, rust_ident_name k = true -> is_ident_name k = true.
+Proof. exact rust_ident_is_ident. Qed.
+(* old witness of C01-key-other-number (m followed by SUPERSCRIPT TWO): quoted now *)
+Theorem C01_key_chunk_number_witness :
+  key_chunk m_squared = Hole (HStr DQ) m_squared /\ holes_ok [key_chunk m_squared] = true /\ hole_ok HKey m_squared = false.
+Proof. exact key_chunk_number_witness. Qed.
 
 (* no explicit rename, effective convention not kebab: the key stays bare (output unchanged by the repair) *)
 Theorem C01_key_bare_no_rename : forall name rename_all dflt,
@@ -114,7 +114,7 @@ Proof. exact skeleton_interface. Qed.
    need identifier leaves and nesting below 64 *)
 Theorem C01_interface_tokens_ok : forall g s rest,
   is_binding_name (cs_name s) = true ->
-  forallb (fun f => negb (kf_key_other_number (field_ser g s f)) && type_in_budget g (cf_ty f)) (listed_fields s) = true ->
+  forallb (fun f => type_in_budget g (cf_ty f)) (listed_fields s) = true ->
   exists asts, p_item (struct_toks g s ++ rest) = Some (IInterface (cs_name s) [] None asts [], rest) /\
                item_ok (IInterface (cs_name s) [] None asts []) = true.
 Proof. exact interface_tokens_ok. Qed.
@@ -164,7 +164,7 @@ Proof. split; apply good_leaf; reflexivity. Qed.
 Example C01_ex_tokens :
   toks_of (interface_chunks g0 ex_struct) = struct_toks g0 ex_struct /\
   lexed (interface_chunks g0 ex_struct) = struct_toks g0 ex_struct /\
-  forallb (fun f => negb (kf_key_other_number (field_ser g0 ex_struct f)) && type_in_budget g0 (cf_ty f)) (listed_fields ex_struct) = true /\
+  forallb (fun f => type_in_budget g0 (cf_ty f)) (listed_fields ex_struct) = true /\
   lex_module (render_m g0 (pts (L "HashMap<String, Vec<Option<(User, i32)>>>"))) = rtoks g0 (pts (L "HashMap<String, Vec<Option<(User, i32)>>>")).
 Proof. exact tokens_example. Qed.
 Example C01_ex_index : lexed (all_chunks (index_file true)) = flat_map star_toks [L "./types"; L "./commands"; L "./events"].
@@ -175,8 +175,8 @@ Proof. vm_compute. repeat split. Qed.
 
 Print Assumptions C01_key_chunk_ok.
 Print Assumptions C01_member_access_ok.
-Print Assumptions C01_key_class_ascii.
-Print Assumptions C01_key_chunk_refuted.
+Print Assumptions C01_rust_ident_is_ident.
+Print Assumptions C01_key_chunk_number_witness.
 Print Assumptions C01_key_bare_no_rename.
 Print Assumptions C01_key_chunk_witnesses.
 Print Assumptions C01_fn_hole.
